@@ -95,6 +95,11 @@ def gen_conv_case(rng):
     c['section_order_seed'] = rng.randrange(1 << 30) if ('extra_precision' in force and rng.random() < 0.4) else None
     names = [b['name'] for b in c['blocks']]
     c['param']['option'] = [rng.randint(0, 9) if rng.random() < 0.6 else 0 for _ in range(24)]
+    if rng.random() < 0.35:
+        # the two MULKOM options whose values decide about the conductivity rescaling (MOP(10) = 2, MOP(23) = 1 with a
+        # simulator older than AUTOUGH2.2): the values just next to the deciding ones as well
+        c['param']['option'][9] = rng.choice([0, 1, 2, 2, 3])
+        c['param']['option'][22] = rng.choice([0, 1, 1, 2])
     if aut and rng.random() < 0.5:
         c['simulator'] = rng.choice(['AUTOUGH2', 'MULKOM', 'AUTOUGH2.2EW', 'TOUGH2.2', 'AUTOUGH2.2EWAV', 'AUTOUGH2  EW'])
     # generators of every class
@@ -319,20 +324,34 @@ class Conv(object):
         if [r[0] for r in r0] != [r[0] for r in r1]:
             self.violation('rocktype-changed:' + label, 'rock types differ after the conversion (other than conductivity): %r -> %r' % (first_difference([r[0] for r in r0], [r[0] for r in r1])))
             return
-        may = label.startswith('to-TOUGH2') and (opt0[10] == 2 or opt0[23] > 0)
+        # the documented rescaling: with the MULKOM conductivity option MOP(10)=2 the conversion to TOUGH2 multiplies every
+        # conductivity by (1 - porosity); with the MULKOM compatibility option MOP(23)>0 it may do so once (more); nothing else
+        # may change a conductivity, and MOP(10)=2 must change it
+        to_t2 = label.startswith('to-TOUGH2')
+        allowed = set([0])
+        if to_t2 and opt0[10] == 2:
+            allowed = set([1, 2]) if opt0[23] > 0 else set([1])
+        elif to_t2 and opt0[23] > 0:
+            allowed = set([0, 1])
         for (d, k0), (_, k1) in zip(r0, r1):
-            if k0 == k1:
+            if k0 is None or d['porosity'] is None or k0 == 0 or d['porosity'] in (0.0, 1.0):
+                if k0 != k1 and not (k0 is not None and d['porosity'] == 1.0 and k1 == 0.0 and allowed != set([0])):
+                    self.violation('conductivity-changed:' + label + ':degenerate', 'rock %s conductivity %r -> %r (porosity %r)' % (d['name'], k0, k1, d['porosity']))
                 continue
-            ok = False
-            if may and k0 is not None and d['porosity'] is not None:
-                for n in (1, 2):
-                    want = k0 * (1.0 - d['porosity']) ** n
-                    if abs(k1 - want) <= 1e-12 * max(abs(want), 1e-300):
-                        ok = True
-                        ctx.count('conductivity_rescalings_seen')
-            if not ok:
-                self.violation('conductivity-changed:' + label + (':no-mulkom-option' if not may else ':not-a-rescaling'),
-                               'rock %s conductivity %r -> %r (porosity %r, MOP(10)=%d MOP(23)=%d)' % (d['name'], k0, k1, d['porosity'], opt0[10], opt0[23]))
+            got = None
+            for n in (0, 1, 2):
+                want = k0 * (1.0 - d['porosity']) ** n
+                if abs(k1 - want) <= 1e-12 * max(abs(want), 1e-300):
+                    got = n
+                    break
+            if got:
+                ctx.count('conductivity_rescalings_seen')
+            ctx.see('conductivity_rescaling', 'MOP(10)=%s MOP(23)%s: factor applied %r times' % ('2' if opt0[10] == 2 else 'other', '>0' if opt0[23] > 0 else '=0', got))
+            if got is None or got not in allowed:
+                kind = 'not-a-rescaling' if got is None else ('no-mulkom-option' if allowed == set([0]) else ('not-rescaled' if got == 0 else 'rescaled-too-often'))
+                self.violation('conductivity-changed:' + label + ':' + kind,
+                               'rock %s conductivity %r -> %r (porosity %r, MOP(10)=%d MOP(23)=%d): (1 - porosity) applied %r times, allowed %r' % (
+                                   d['name'], k0, k1, d['porosity'], opt0[10], opt0[23], got, sorted(allowed)))
 
     def judge_lookup(self, dat, label):
         keys = set((g.block, g.name) for g in dat.generatorlist)
